@@ -153,6 +153,7 @@ class Ctx(object):
   def begin(self, case):
     self.cur = case
     self.cur_failed = False
+    self.case_index = getattr(self, "case_index", -1) + 1
 
   def end(self, nontrivial=True, key=None, sample=True):
     """Closes the current case. key identifies distinctness (default: digest
@@ -204,7 +205,7 @@ class Ctx(object):
       self.violations.append({
           "site": site, "msg": msg, "info": to_jsonable(info),
           "finding": finding, "case": to_jsonable(self.cur),
-          "shard": self.shard,
+          "shard": self.shard, "index": getattr(self, "case_index", None),
       })
 
   def exception(self, site, exc):
